@@ -164,7 +164,7 @@ def doubled_failures(spec, st=None, thorough=False):
     full_arrs = bra_arrs + arrs
     full_topo = tuple(bra_topo) + tuple(topo)
     if nt <= 2:
-        opts = dict(both_orders=True, listings=True, partial=thorough, pre=(1 if thorough else 0), pre_both=False, modes=("fused", "blockwise"))
+        opts = dict(both_orders=True, listings=True, partial=False, pre=0, pre_both=False, modes=("fused", "blockwise"))
     else:
         # six tensors: every linear (caterpillar) order from every starting pair, both operand orders, plus
         # 'ket network and bra network first, then join' in every internal order
